@@ -82,6 +82,7 @@ struct Case {
 	uint8_t logger0 = 0;         // logger attached from construction
 	uint8_t replicas = 0;        // number of replica instances fed through the channel (0..2)
 	uint8_t in_contract = 0;     // never exceed the substitution limit (C18 profile)
+	uint8_t vlog = 0;            // verbose build, logger attached for the whole run: plan outcomes of a machine without plan-outcome callbacks are observed through their verbose method records
 	uint8_t lossy = 0;           // replication channel may drop / duplicate / reorder transition messages (healed at the end)
 	std::vector<Op> ops;         // ops[0] is always OP_CONSTRUCT (its reactions apply to the activation of an automatic machine)
 };
